@@ -36,6 +36,11 @@ func runExtras(r *Runner, p *Property, tier string) ([]*LedgerEntry, []string) {
 			out = append(out, boundedStandIn(r, "C06", "ReadStringBytes", "string-content", []byte("\"\\ubfnrt/a0D8C "))...)
 		case "bounded-float-differential":
 			out = append(out, boundedStandIn(r, "C04", "ReadFloat64", "float-differential", nil)...)
+		case "bounded-append-semantics":
+			e1 := &LedgerEntry{Kind: "ensures"}
+			_ = e1
+			out = append(out, boundedStandInKind(r, "C16", "ReadStringBytes", "append-semantics-ReadStringBytes", []byte("\"\\unD8a0 "), "ensures")...)
+			out = append(out, boundedStandInKind(r, "C16", "UnescapeStringContent", "append-semantics-UnescapeStringContent", []byte("\"\\unD8a0 "), "ensures")...)
 		case "bounded-zero-alloc":
 			out = append(out, boundedStandIn(r, "C19", "readers", "zero-alloc", nil)...)
 		case "fp-noalloc-scan":
@@ -314,8 +319,15 @@ func globalStoreScan(eng *Engine) []*LedgerEntry {
 //        SkipValueFast / Valid / HandleArrayValues / HandleObjectValues with a warmed Buffer and
 //        ReadStringBytes / UnescapeStringContent with spare capacity.
 func boundedStandIn(r *Runner, prop, fn, what string, alpha []byte) []*LedgerEntry {
+	return boundedStandInKind(r, prop, fn, what, alpha, "bounded")
+}
+
+// boundedStandInKind: familyKind is the obligation kind that selects the replay family (C16 chooses
+// its family by kind); the ledger entry itself is always of kind "bounded".
+func boundedStandInKind(r *Runner, prop, fn, what string, alpha []byte, familyKind string) []*LedgerEntry {
 	p := &Property{ID: prop}
-	e := &LedgerEntry{Name: "bounded/" + prop + "/" + what, Kind: "bounded", Fn: fn, Instances: 1, alphaOverride: alpha}
+	e := &LedgerEntry{Name: "bounded/" + prop + "/" + what, Kind: familyKind, Fn: fn, Instances: 1, alphaOverride: alpha}
+	defer func() { e.Kind = "bounded" }()
 	rt, ok := concreteReplay(r.eng, p, e, nil, filepath.Join(outDir(), "replays", prop, "bounded_"+what))
 	switch {
 	case !ok:
